@@ -80,7 +80,7 @@ Definition civil_back (z : Z) : option Z :=
   end.
 
 (* algorithms over the bytes of a row: reverse; index of the first 97 (or -1); the maximum (or -1);
-   is_sorted; rotate left by one *)
+   is_sorted; rotate to the middle (rotate(first, first + n/2, last)) *)
 Fixpoint sortedb (l : list Z) : bool :=
   match l with
   | a :: ((b :: _) as t) => (a <=? b) && sortedb t
@@ -91,4 +91,4 @@ Definition algo2 (s : list Z) : list Z * Z * Z * Z * list Z :=
    match index_of 97 s 0 with Some i => i | None => -1 end,
    fold_right Z.max (-1) s,
    b2z' (sortedb s),
-   match s with a :: t => t ++ [a] | [] => [] end).
+   let k := Nat.div (length s) 2 in skipn k s ++ firstn k s).
